@@ -247,10 +247,17 @@ fn call(f: Func, args: &[Node], at: f64) -> R {
                 Avg => {
                     let s: f64 = vs.iter().sum();
                     let sa: f64 = vs.iter().map(|v| v.abs()).sum();
+                    let n = vs.len() as f64;
                     if !s.is_finite() || !sa.is_finite() {
-                        return RV::Unspec("U3: intermediate overflow inside avg");
+                        // only the sum overflows: the mean of the scaled terms, to 1e-15 of the mean magnitude
+                        let m: f64 = vs.iter().map(|v| v / n).sum();
+                        let ma: f64 = vs.iter().map(|v| (v / n).abs()).sum();
+                        if vs.iter().all(|v| v.is_finite()) && m.is_finite() && ma.is_finite() {
+                            return RV::Val(m, if all_exact { Q::Tol(ma * 1e-14) } else { Q::Skip });
+                        }
+                        return RV::Unspec("U3: non-finite operand or mean inside avg");
                     }
-                    let v = s / vs.len() as f64;
+                    let v = s / n;
                     RV::Val(
                         v,
                         if all_exact {
@@ -270,7 +277,11 @@ fn call(f: Func, args: &[Node], at: f64) -> R {
                         let a = s[l / 2 - 1];
                         let b = s[l / 2];
                         if !(a + b).is_finite() {
-                            return RV::Unspec("U3: intermediate overflow inside med");
+                            if a.is_finite() && b.is_finite() {
+                                let v = a / 2.0 + b / 2.0;
+                                return RV::Val(v, tiny(a.abs() / 2.0 + b.abs() / 2.0));
+                            }
+                            return RV::Unspec("U3: non-finite middle value inside med");
                         }
                         let v = (a + b) / 2.0;
                         RV::Val(v, tiny(a.abs() + b.abs()))
